@@ -524,6 +524,13 @@ def _correspond_case(ck, op, call, sp, ans, stats):
         _cmp("output Var (type, has value) under value propagation",
              [[k, t, hv] for k, t, hv in zip(out_keys(cls, call), sp["types"], sp["has_value"])],
              [[k, t, v is not None] for k, t, v in ans["vp"]], d)
+    # round 10: every attached ndarray value passes the model's `propCheck` against the type `construct` reports
+    if "values_fit" in ans and sp["raised"] is None and not patched:
+        for k, fit in ans["values_fit"]:
+            stats["attached_values_checked"] += 1
+            if not fit:
+                f = [x for x in (sp.get("value_facts") or []) if isinstance(x, list)]
+                d.append(f"output {k} carries a value that does not fit the reported type (model propCheck false): value facts {f}, types {json.dumps(sp['types'])[:200]}")
     # the oracle's hand-built model is the model's `handModel`
     if not ans["untyped"] and not call.get("sub"):
         try:
